@@ -7,10 +7,11 @@ d=/verif/seeded/$name
 log=$d/confirm.log
 cd $wt || exit 2
 git checkout -q -- .
+grep "test result" $log > /tmp/suite-$name.txt 2>/dev/null
 : > $log
 exs=""
 for f in $d/demo/*.rs; do [ -f "$f" ] && cp $f crates/resvg/examples/ && exs="$exs $(basename $f .rs)"; done
-grep -E '^\s+(\./)?target/debug/examples/' $d/demo/README.md | sed -E "s#seed/$letter/demo#$d/demo#g; s#^\s+##" | sort -u > /tmp/seedcmds-$name.sh
+python3 /verif/tools/seedcmds.py $d $letter > /tmp/seedcmds-$name.sh
 run_demo() {
   for e in $exs; do cargo build --offline -q -p resvg --example $e > /dev/null 2>&1 || echo "BUILD FAILED $e" >> $log; done
   while read -r line; do
@@ -24,7 +25,7 @@ git apply $d/patch.diff || { echo "PATCH DOES NOT APPLY" >> $log; exit 1; }
 echo "=== with the change" >> $log
 run_demo patched
 echo "=== test suite with the change" >> $log
-cargo test --workspace --no-fail-fast --offline 2>&1 | grep -E "^test result|FAILED|failed|^error" | grep -v " 0 passed" >> $log
+[ -n "$SKIP_SUITE" ] && cat /tmp/suite-$name.txt >> $log || cargo test --workspace --no-fail-fast --offline 2>&1 | grep -E "^test result|FAILED|failed|^error" | grep -v " 0 passed" >> $log
 git checkout -q -- .
 for e in $exs; do rm -f crates/resvg/examples/$e.rs; done
 echo "=== done" >> $log
